@@ -296,6 +296,15 @@ func RunOne(t *testing.T, p *Prop, sc Scenario, tier string, keepTrace int) (res
 			returned = true
 		})
 	}()
+	if res.Inconclusive != "" && len(res.Violations) > 0 {
+		// a run that was abandoned (step budget, real-time limit) is never judged: whatever the
+		// oracle made of the half-finished session is dropped
+		if res.Extra == nil {
+			res.Extra = map[string]string{}
+		}
+		res.Extra["dropped_violations_of_an_inconclusive_run"] = fmt.Sprint(len(res.Violations))
+		res.Violations = nil
+	}
 	res.Choices = sched.Record
 	if keepTrace != 0 && env.K != nil {
 		for _, s := range env.K.Trace() {
